@@ -21,7 +21,9 @@ const ODD_TOKENS: [&str; 44] = [
 fn gen_token(r: &mut Rng, names: &[String]) -> String {
     match r.below(12) {
         0..=2 => r.pick(&ODD_TOKENS).to_string(),
-        3 | 4 => r.pick(names).clone(),
+        3 => r.pick(names).clone(),
+        // a name that differs from a registered instruction only by case is a NAME
+        4 => if r.chance(1, 3) { r.pick(names).to_lowercase() } else { r.pick(names).clone() },
         5 => gen_int(r).to_string(),
         6 => format!("{}", gen_float(r)),
         7 => format!("{:.3}", gen_float(r)),
